@@ -120,15 +120,17 @@ def scenario(variant, tier):
                 r = b.run(cmd, root="R")
             ctx = "%s after %s: exit %s exc %s | %s" % (cmd, kind, r.exit, r.exc, "; ".join(getattr(b, "notes", [])))
             b.require(r.exc is None or r.exit in (10, 11, 21), "no-internal-error", ctx)
+            # codes of the discrepancies that are present; with several present the statement leaves the precedence to the tool
+            present = set()
             if altered and cmd in ("verify", "create"):
-                exp = 11
-            elif removed:
-                exp = 10
-            elif added and cmd in ("verify", "diff"):
-                exp = 21
-            else:
-                exp = 0
-            b.require(r.exit == exp, "exit-code", "expected %d: %s" % (exp, ctx))
+                present.add(11)
+            if removed:
+                present.add(10)
+            if added and cmd in ("verify", "diff"):
+                present.add(21)
+            if not present:
+                present = {0}
+            b.require(r.exit in present, "exit-code", "expected %s: %s" % (sorted(present), ctx))
             # every affected path is named, no unaffected path is
             mism = cm.lines_with(r, "hash mismatch")
             newl = cm.lines_with(r, "found new file")
